@@ -376,6 +376,7 @@ func updateConfigFile() {
 		}
 		b = append(b, ")\n"...)
 	}
+	verifCrash("config.write")
 	if err := os.WriteFile(configFilename, b, 0666); err != nil {
 		panic(err)
 	}
